@@ -59,7 +59,7 @@ struct xshared {
   int ncls;
   struct xclass cls[MAXCLS];
   uint64_t executions, cp_total, exec_by_depth[VS_MAXDEV + 1];
-  uint64_t max_cp, max_preempt, heap_peak_max, nstates, states_capped;
+  uint64_t max_cp, max_preempt, heap_peak_max, heap_limit_used, nstates, states_capped;
   uint64_t cp_by_kind[8];
   uint64_t ev_total[16];
   volatile uint64_t next_item;
@@ -244,6 +244,7 @@ reset_record(void)
   vs_rec->preemptions = 0;
   vs_rec->inv_flags = 0;
   vs_rec->heap_peak = 0;
+  vs_rec->heap_limit_used = 0;
   vs_rec->nthreads = 0;
   vs_rec->note[0] = 0;
   vs_rec->trace_n = 0;
@@ -377,6 +378,8 @@ collect_io(struct result *r)
   b[n] = 0;
   r->sanitizer = (strstr((char *)b, "Sanitizer") != NULL || strstr((char *)b, "runtime error:") != NULL);
   r->err_hash = r->sanitizer ? 0 : fnv(b, n);
+  if (r->sanitizer)
+    r->err_len = 0;             /* reports carry pids and addresses */
   {
     size_t k = n < sizeof r->err_head - 1 ? n : sizeof r->err_head - 1;
     if (r->sanitizer) {
@@ -388,6 +391,9 @@ collect_io(struct result *r)
         k = strcspn(e, "\n");
         if (k > sizeof r->err_head - 1) k = sizeof r->err_head - 1;
         memcpy(r->err_head, e, k);
+        r->err_head[k] = 0;
+        e = strstr(r->err_head, " (pid=");
+        if (e) { *e = 0; k = strlen(r->err_head); }
       }
       else
         memcpy(r->err_head, b, k);
@@ -452,6 +458,7 @@ account(const struct vs_config *cfg, const struct result *r)
   if (ncp > X->max_cp) X->max_cp = ncp;
   if (vs_rec->preemptions > X->max_preempt) X->max_preempt = vs_rec->preemptions;
   if (vs_rec->heap_peak > X->heap_peak_max) X->heap_peak_max = vs_rec->heap_peak;
+  if (vs_rec->heap_limit_used > X->heap_limit_used) X->heap_limit_used = vs_rec->heap_limit_used;
   for (c = 0; c < X->ncls; c++) {
     struct xclass *k = &X->cls[c];
     if (k->kind == r->kind && k->code == r->code && k->out_hash == r->out_hash &&
@@ -721,11 +728,12 @@ main(int argc, char **argv)
     }
     fprintf(out, "{\"kind\":\"%s\",\"code\":%d,\"stdout_len\":%llu,\"stdout_hash\":\"%016llx\","
             "\"stderr_len\":%llu,\"stderr_hash\":\"%016llx\",\"sanitizer\":%u,\"inv\":%u,"
-            "\"ncp\":%u,\"preemptions\":%u,\"heap_peak\":%llu,\"threads\":%u,\"stderr_head\":",
+            "\"ncp\":%u,\"preemptions\":%u,\"heap_peak\":%llu,\"heap_limit\":%llu,\"threads\":%u,\"stderr_head\":",
             kindname(r.kind), r.code, (unsigned long long)r.out_len, (unsigned long long)r.out_hash,
             (unsigned long long)r.err_len, (unsigned long long)r.err_hash, r.sanitizer,
             vs_rec->inv_flags, vs_rec->ncp, vs_rec->preemptions,
-            (unsigned long long)vs_rec->heap_peak, vs_rec->nthreads);
+            (unsigned long long)vs_rec->heap_peak, (unsigned long long)vs_rec->heap_limit_used,
+            vs_rec->nthreads);
     json_str(out, r.err_head);
     fputs(",\"note\":", out);
     json_str(out, vs_rec->note);
@@ -842,11 +850,12 @@ main(int argc, char **argv)
     fputs("],\"base_ncp\":[", out);
     for (p = 0; p < npol; p++) fprintf(out, "%s%u", p ? "," : "", base_ncp[p]);
     fprintf(out, "],\"horizon\":%u,\"executions\":%llu,\"cp_total\":%llu,\"max_cp\":%llu,"
-            "\"max_preemptions\":%llu,\"heap_peak_max\":%llu,\"distinct_states\":%llu,"
+            "\"max_preemptions\":%llu,\"heap_peak_max\":%llu,\"heap_limit\":%llu,\"distinct_states\":%llu,"
             "\"states_capped\":%llu,\"wall_s\":%.3f,\"exec_by_depth\":[",
             base_cfg.horizon, (unsigned long long)X->executions, (unsigned long long)X->cp_total,
             (unsigned long long)X->max_cp, (unsigned long long)X->max_preempt,
-            (unsigned long long)X->heap_peak_max, (unsigned long long)X->nstates,
+            (unsigned long long)X->heap_peak_max, (unsigned long long)X->heap_limit_used,
+            (unsigned long long)X->nstates,
             (unsigned long long)X->states_capped, now() - t0);
     for (i = 0; i <= bound && i <= VS_MAXDEV; i++)
       fprintf(out, "%s%llu", i ? "," : "", (unsigned long long)X->exec_by_depth[i]);
